@@ -104,7 +104,7 @@ class P(Prop):
         edges = nc.expand(case)
         dist = nc.floyd_warshall(n, edges)          # only to choose the cut-offs
         cuts = cut_tokens(case, dist)
-        with nc.time_limit(10):
+        with nc.time_limit(3 if n <= 4 else 20):
             net = nc.build_network(self.mods, case)
             out = {"cuts": cuts, "pairs": [], "lists": [], "all": [], "prep": []}
             for c in cuts:
@@ -163,9 +163,16 @@ class P(Prop):
             i += 1
         return out
 
+    def compare(self, case, impl_out, model_out):
+        if isinstance(impl_out, dict) and impl_out.get("err") == "err:Skipped":
+            return None
+        return Prop.compare(self, case, impl_out, model_out)
+
     # ---------------------------------------------------------------- oracle
     def spec(self, case, out):
         if "err" in out:
+            if out["err"] == "err:Skipped":
+                return None     # not evaluated (see netcommon.time_limit); the cases that timed out are the failures
             return "the implementation failed: %s %s" % (out["err"], out.get("detail", ""))
         n = case["n"]
         edges = nc.expand(case)
